@@ -21,7 +21,7 @@ RULE = (
     "Cases = source of 0..60 samples (thorough ..400) with distinct content x width 1/2/4 x 1-3 channels x rate x "
     "block B in 1..12 samples x hop (none, = B, 1..B-1), durations passed as k/rate or, one case in three, with a "
     "quarter/half/three-quarter sample added (so hop_dur < block_dur may mean the same number of samples) x max_read (none, k samples, k+1/4, k+3/4 samples; 0 and "
-    "beyond the end included) x source kind (bytes, BufferAudioSource, lazy raw file, lazy wav file) x 1-5 reads past "
+    "beyond the end included) x source kind (bytes, BufferAudioSource - fresh or already partly consumed -, lazy raw file, lazy wav file, standard input behind a BytesIO or a real OS pipe fed in uneven pieces) x 1-5 reads past "
     "the end; plus rejected configurations (block shorter than a sample, block 0, hop > block). Oracle: closed-form "
     "block sequence over the visible prefix (chunks of B; with overlap block k = samples [k*hop, k*hop+B)), then None "
     "on every further call; block_size/hop_size/block_dur equal the model; ValueError for the rejected ones. "
@@ -31,7 +31,7 @@ MUST_HIT = ["source_already_partly_consumed", "fractional_durations", "hop_lt_bl
             "visible_shorter_than_block", "rejected", "kind_wav_lazy", "kind_raw_lazy"]
 ASSUMPTIONS = ["durations are passed as k/rate; where the exact product lies within 1e-9 of an integer either neighbour is accepted for block/hop size"]
 BOUNDS = {"quick": dict(n=1200, maxN=60), "thorough": dict(n=8000, maxN=400)}
-KINDS = ("bytes", "buffer", "raw_lazy", "wav_lazy")
+KINDS = ("bytes", "buffer", "raw_lazy", "wav_lazy", "stdin", "stdin_pipe")
 _ctr = [0]
 
 
@@ -45,13 +45,56 @@ def content(N, bps, salt):
     return (unit * (n // 4099 + 1))[:n]
 
 
+class stdin_as:
+    """context manager: sys.stdin is `obj` while a StdinAudioSource is being constructed"""
+
+    def __init__(self, obj):
+        self.obj = obj
+
+    def __enter__(self):
+        import sys
+
+        self.old = sys.stdin
+        if self.obj is not None:
+            sys.stdin = self.obj
+        return self
+
+    def __exit__(self, *exc):
+        import sys
+
+        sys.stdin = self.old
+        return False
+
+
+def cleanup(paths):
+    for p in paths:
+        try:
+            if callable(p):
+                p()
+            else:
+                os.remove(p)
+        except OSError:
+            pass
+
+
 def make_input(cfg, data):
-    """-> (input, kwargs, cleanup paths)"""
+    """-> (input, kwargs, cleanup list: paths or callables).  For the stdin kinds kwargs holds
+    "_stdin": the object sys.stdin must be while the reader is constructed (pop it, use stdin_as)."""
     sr, sw, ch = cfg["sr"], cfg["sw"], cfg["ch"]
     kind = cfg["kind"]
     params = dict(sampling_rate=sr, sample_width=sw, channels=ch)
     if kind == "bytes":
         return data, params, []
+    if kind == "stdin":
+        from .c09 import _FakeStdin
+
+        return "-", dict(params, _stdin=_FakeStdin(data)), []
+    if kind == "stdin_pipe":
+        from .c09 import _PipeStdin
+
+        step = max(len(data) // 7, 1)
+        pipe = _PipeStdin(data, [step + 1, max(step - 2, 1), 1, step + 3])
+        return "-", dict(params, _stdin=pipe), [pipe.finish]
     if kind == "buffer":
         k = cfg.get("prepos") or 0
         if k:
@@ -148,7 +191,8 @@ def check_case(case, rec):
                 if not Fraction(args["hop_dur"]) > Fraction(args["block_dur"]):
                     raise HarnessError("hop not above block")
             try:
-                auditok.AudioReader(inp, **args, **kw)
+                with stdin_as(kw.pop("_stdin", None)):
+                    auditok.AudioReader(inp, **args, **kw)
             except ValueError:
                 rec.note(case, True, classes | {"rejected"}, out="ValueError")
                 return
@@ -160,7 +204,8 @@ def check_case(case, rec):
             args["hop_dur"] = hd
         if mr is not None:
             args["max_read"] = mr
-        reader = auditok.AudioReader(inp, **args, **kw)
+        with stdin_as(kw.pop("_stdin", None)):
+            reader = auditok.AudioReader(inp, **args, **kw)
         B, H = sizes(cfg, reader, case)
         if cfg.get("fb") or cfg.get("fh"):
             classes.add("fractional_durations")
@@ -204,11 +249,7 @@ def check_case(case, rec):
             classes.add("source_already_partly_consumed")
         rec.note(case, nt, classes, out=[list(s) for s in spans])
     finally:
-        for p in paths:
-            try:
-                os.remove(p)
-            except OSError:
-                pass
+        cleanup(paths)
 
 
 def explicit_cases():
@@ -222,6 +263,9 @@ def explicit_cases():
         dict(base, kind="buffer", H=5, mr=[40, 0]),
         dict(base, H=5, fb=0.5, fh=0.0),
         dict(base, kind="buffer", prepos=4, mr=[11, 0]),
+        dict(base, kind="stdin", mr=[11, 0.25]),
+        dict(base, kind="stdin_pipe", N=40, H=None),
+        dict(base, kind="stdin_pipe", N=37, mr=[30, 0]),
         dict(base, H=2, fb=0.25, fh=0.75, kind="raw_lazy"),
         dict(base, reject="tiny_block"),
         dict(base, reject="zero_block"),
